@@ -1012,6 +1012,10 @@ class SVal:
                               '<=': lambda: va <= vb, 'in': lambda: va in vb}[op]())
             except Exception:
                 pass
+        if op == '==' and a[0] == 'tuple' and b[0] == 'tuple' and len(a[1]) == len(b[1]) and a[1] \
+                and not any(isinstance(x, tuple) and x and x[0] in ('star', 'when', 'each', 'acc') for x in a[1] + b[1]):
+            # equality of two displays of one length is the equality of their elements
+            return mk_bool('and', tuple(self.mk_cmp('==', x, y) for x, y in zip(a[1], b[1])))
         if op in ('==', 'is'):
             if a == b and a[0] in ('param', 'global', 'const'):
                 return TRUE
